@@ -28,7 +28,7 @@ def bounds(tier):
         "val_prop": VAL_PROPS,
         "epochs": [1, 2] if tier == "quick" else [1, 2, 3, 4],
         "keys": 1 if tier == "quick" else 2,
-        "condition": [False, True],
+        "condition": [False, True, "integer-typed x and condition (ids above 2**24) for n in {5,12,20}"],
         "exhaustive_within_bounds": True,
     }
 
@@ -39,6 +39,10 @@ def enumerate_cases(tier, seed):
     for n in range(2, nmax + 1):
         for cond in (False, True):
             cases.append({"id": f"n={n}|cond={int(cond)}", "n": n, "cond": cond, "tier": tier, "seed": seed})
+    # integer-typed datasets (ids, counts, timestamps): rows must reach the loss with their own dtype and exact values; condition ids
+    # lie above 2**24, where float32 cannot tell neighbours apart
+    for n in ([5, 12, 20] if tier == "quick" else [5, 12, 20, 33, 60]):
+        cases.append({"id": f"n={n}|cond=int-typed", "n": n, "cond": 2, "tier": tier, "seed": seed})
     # longest first for load balance
     cases.sort(key=lambda c: -c["n"])
     return cases
@@ -90,6 +94,9 @@ def one_run(env, n, bs, vp, cond, epochs, keyint):
     ev.clear()
     x = jnp.arange(float(n))[:, None]
     c = (1000.0 + jnp.arange(float(n)))[:, None] if cond else None
+    if cond == 2:
+        x = jnp.arange(n, dtype=jnp.int32)[:, None]
+        c = (16777217 + 2 * jnp.arange(n, dtype=jnp.int32))[:, None]
     key = jax.random.PRNGKey(keyint)
     dist, losses = fit_to_data(
         key, env["M"](jnp.ones(2)), x, condition=c, loss_fn=env["loss_fn"], max_epochs=epochs, max_patience=1000,
@@ -130,7 +137,12 @@ def judge(hist, losses, n, bs, vp, cond, epochs, n_train, inkey):
             if xb.shape[0] != size:
                 bad.append(("batch-size", f"epoch {e} {s[0]} batch has {xb.shape[0]} rows, expected {size}"))
             tags = [float(v) for v in xb[:, 0]]
-            if cond:
+            if cond == 2:
+                if xb.dtype.kind not in "iu" or cb.dtype.kind not in "iu":
+                    bad.append(("dtype-changed", f"epoch {e} {s[0]}: integer dataset reached the loss as x {xb.dtype}, condition {cb.dtype}"))
+                if [16777217 + 2 * int(t) for t in tags] != [int(v) for v in cb[:, 0]]:
+                    bad.append(("misaligned", f"epoch {e} {s[0]}: x rows {tags} paired with condition ids {[int(v) for v in cb[:, 0]]} (own ids are 16777217 + 2 row)"))
+            elif cond:
                 ctags = [float(v) for v in cb[:, 0]]
                 if [t + 1000.0 for t in tags] != ctags:
                     bad.append(("misaligned", f"epoch {e} {s[0]}: x rows {tags} paired with condition rows {ctags}"))
